@@ -1,7 +1,8 @@
 """C06 runtime correspondence check (see DESIGN.md)."""
 from . import rtprop
 
-THEOREMS = ['FlexVerif.match_conserves', 'FlexVerif.validate_sound']
+THEOREMS = ['FlexVerif.match_conserves', 'FlexVerif.validate_sound', 'FlexVerif.Re.matchesB_iff', 'FlexVerif.longestSplit_spec',
+            'FlexVerif.specCands_selects']
 
 
 def run(ctx):
